@@ -59,8 +59,9 @@ def main():
         if out["tests_same_as_baseline"] and out["demo_with_patch_exit"] != 0 and out["demo_without_patch_exit"] == 0:
             os.makedirs(dest, exist_ok=True)
             for f in ("patch.diff", "demo.py", "notes.md"):
-                if os.path.exists(os.path.join(d, f)):
-                    shutil.copy(os.path.join(d, f), os.path.join(dest, f))
+                src = os.path.join(d, f)
+                if os.path.exists(src) and os.path.realpath(src) != os.path.realpath(os.path.join(dest, f)):
+                    shutil.copy(src, os.path.join(dest, f))
             notes = open(os.path.join(d, "notes.md")).read() if os.path.exists(os.path.join(d, "notes.md")) else ""
             meta = {"id": mid, "breaks_property": prop, "needs_to_manifest": notes[:1500],
                     "what_i_ran": ["patch -p1 on a scratch copy of /repo (src+tests)", "pinned pytest command with PYTHONPATH=<copy>/src",
